@@ -25,6 +25,7 @@ Hand types: HIP [hit, alg, key, [name...]]; IPSECKEY [prec, gwtype, alg, gw, key
     GPOS [lat, lon, alt] (ASCII); LOC [[d,m,s,ms,sign],[d,m,s,ms,sign], alt_cm, size_cm, hp_cm, vp_cm];
     OPT [[otype, payload]...]; SVCB/HTTPS [priority, target, [[key, payload-spec]...]].
 """
+import importlib
 import os
 import socket
 import sys
@@ -153,8 +154,14 @@ def from_attr(kind, a):
 # ----------------------------------------------------------------------------- construction
 
 
+def impl_class(t):
+    """the implementation class, imported by module path (independent of get_rdata_class)"""
+    mod = importlib.import_module("dns.rdtypes." + t["module"].replace("/", "."))
+    return getattr(mod, t["name"])
+
+
 def make_rdata(t, rdclass, values):
-    cls = dns.rdata.get_rdata_class(rdclass, t["rdtype"])
+    cls = impl_class(t)
     if t["kind"] == "schema":
         args = [None] * len(t["params"])
         for fl, v in zip(t["writer"], values):
@@ -642,3 +649,196 @@ def names_in(t, values):
     if h == "svcb":
         return [values[1]]
     return []
+
+
+# ----------------------------------------------------------------------------- systematic corners
+# corners(t) -> list of (values, origin): deterministic boundary records, one field at its
+# extreme at a time (empty / maximal / high bit / zero count / carry boundaries), the same in
+# both tiers.  Used in addition to the random values.
+
+ORIGIN = [b"Example", b"ORG", b""]
+
+
+def _typical(fl):
+    k = fl["k"]
+    if k == "U":
+        return min(fl["max"], 3)
+    if k == "Fixed":
+        return bytes(range(1, fl["n"] + 1))
+    if k == "Counted":
+        return b"ab"[: max(fl["lo"], min(2, fl["hi"]))] if fl["lo"] <= 2 else b"a" * fl["lo"]
+    if k == "Name":
+        return [b"Host", b"example", b""]
+    if k == "Remaining":
+        return b"\x01\x02\x03"
+    if k == "RemN":
+        return bytes(range(1, fl["n"] + 1))
+    if k == "OptC8":
+        return b"x"
+    if k == "Repeat":
+        if fl.get("asc"):
+            return [[0, b"\x40\x01"], [1, b"\x80"]]
+        return [[_typical(r) for r in fl["row"]]]
+    raise ValueError(k)
+
+
+def _field_corners(fl):
+    k = fl["k"]
+    if k == "U":
+        w, mx = fl["w"], fl["max"]
+        c = {0, 1, mx, min(mx, 1 << (8 * w - 1)), min(mx, (1 << (8 * w - 1)) - 1), min(mx, 255), min(mx, 256), min(mx, 65535), min(mx, 65536), min(mx, 128)}
+        return sorted(c)
+    if k in ("Fixed", "RemN"):
+        n = fl["n"]
+        return [bytes(n), b"\xff" * n, b"\x80" + bytes(n - 1)]
+    if k == "Counted":
+        lo, hi = fl["lo"], fl["hi"]
+        lens = sorted({lo, min(hi, lo + 1), min(hi, 127), min(hi, 128), min(hi, 255), min(hi, 256), min(hi, 1024)})
+        out = [b"\xff" * n for n in lens] + [bytes(min(hi, max(lo, 3)))]
+        return out
+    if k == "Name":
+        return [[b""], [b"a" * 63, b"b" * 63, b"c" * 63, b"d" * 61, b""], [b"\x00\xff.@", b"\\", b""], [b"x" * 63, b""], [b"rel"], [], [b"Sub", b"Example", b"ORG", b""]]
+    if k == "Remaining":
+        lo = fl.get("lo", 0)
+        return [bytes(lo), b"\xff" * (lo + 1), b"\x00" * 17, bytes(range(256)) + b"tail"]
+    if k == "OptC8":
+        return [b"", b"\x00", b"\xff" * fl["hi"]]
+    if k == "Repeat":
+        out = []
+        if not fl["min1"]:
+            out.append([])
+        if fl.get("asc"):
+            out += [[[0, b"\x01"]], [[255, b"\xff" * 32]], [[0, b"\x00"], [128, b"\x80" + bytes(31)], [255, b"\x01"]],
+                    [[w, b"\x55"] for w in range(0, 256, 5)]]
+        else:
+            row = fl["row"]
+            base = [_typical(r) for r in row]
+            out.append([base])
+            for j, r in enumerate(row):
+                for c in _field_corners(r):
+                    rr = list(base)
+                    rr[j] = c
+                    out.append([rr])
+            out.append([base] * 40)
+        return out
+    raise ValueError(k)
+
+
+def _has_rel(v):
+    return isinstance(v, list) and (len(v) == 0 or (all(isinstance(l, (bytes, bytearray)) for l in v) and v[-1] != b""))
+
+
+def corners(t):
+    out = []
+    if t["kind"] == "schema":
+        base = [_typical(fl) for fl in t["writer"]]
+        import random
+
+        rng = random.Random(1)
+        cand = [base]
+        for i, fl in enumerate(t["writer"]):
+            for c in _field_corners(fl):
+                v = list(base)
+                v[i] = c
+                cand.append(v)
+        for v in cand:
+            v = repair(rng, t, list(v)) if t["check"]["id"] != "none" else v
+            rel = any(_has_rel(n) for n in names_in(t, v))
+            out.append((v, ORIGIN if rel else None))
+        # the base record once with an origin it is NOT below, once with one it is below (decoding
+        # then relativizes; same letter case, so that the re-encoding is still identical)
+        base = repair(rng, t, list(base)) if t["check"]["id"] != "none" else base
+        out.append((base, [b"other", b""]))
+        out.append((base, [b"example", b""]))
+        return out
+    return [(v, ORIGIN if any(_has_rel(n) for n in names_in(t, v)) else None) for v in HAND_CORNERS[t["hand"]]()]
+
+
+def _c_hip():
+    n1, n2 = [b"rvs", b"example", b""], [b""]
+    return [[b"", 0, b"", []], [b"\xff" * 255, 255, b"\x00" * 300, [n1]], [b"\x01", 2, b"k", [n1, n2, [b"rel"]]],
+            [b"h" * 16, 1, b"\xff" * 256, []], [b"", 128, b"\x80", [n2]], [b"\x00", 1, b"", [[b"a" * 63, b""]]]]
+
+
+def _c_gw_types():
+    return [(0, None), (1, b"\x00\x00\x00\x00"), (1, b"\xff\xff\xff\xff"), (1, b"\xc0\x00\x02\x01"), (2, bytes(16)), (2, b"\xff" * 16),
+            (2, b"\x20\x01\x0d\xb8" + bytes(11) + b"\x01"), (3, [b""]), (3, [b"gw", b"Example", b""]), (3, [b"rel"])]
+
+
+def _c_ipseckey():
+    out = []
+    for gt, gw in _c_gw_types():
+        out.append([10, gt, 2, gw, b"\x01\x02key"])
+        out.append([255, gt, 0, gw, b""])
+    out.append([0, 0, 255, None, b"\xff" * 300])
+    return out
+
+
+def _c_amtrelay():
+    out = []
+    for gt, gw in _c_gw_types():
+        for d in (0, 1):
+            out.append([rngless(gt, d), d, gt, gw])
+    return out
+
+
+def rngless(a, b):
+    return [0, 255, 128, 1][(a + 2 * b) % 4]
+
+
+def _c_apl():
+    items = []
+    for fam, full in ((1, 4), (2, 16)):
+        for neg in (0, 1):
+            for keep in (0, 1, full - 1, full):
+                addr = (b"\xc0\xa8\x01\x7f\x20\x01\x0d\xb8\x00\x01\x02\x03\x04\x05\x06\x07"[:keep] + bytes(full))[:full]
+                for prefix in (0, 8 * full):
+                    items.append([fam, neg, addr, prefix])
+    for fam in (0, 3, 65535):
+        for neg in (0, 1):
+            for addr in (b"", b"\x00", b"\xab", b"\xab\x00", b"\xff" * 63):
+                items.append([fam, neg, addr, 255 if addr else 0])
+    out = [[]] + [[it] for it in items]
+    out.append(items[:12])
+    out.append(items[-6:] + items[:3])
+    return out
+
+
+def _c_gpos():
+    return [[b"0", b"0", b"0"], [b"-90", b"+180", b"-100.5"], [b"90.0", b"-180.0", b"8848."], [b".5", b"+.25", b"-.0"], [b"12.345678", b"123.456789", b"0.0"],
+            [b"0" * 255, b"0", b"1" * 255]]
+
+
+def _c_loc():
+    out = []
+    for lat in ([0, 0, 0, 0, 1], [90, 0, 0, 0, 1], [90, 0, 0, 0, -1], [89, 59, 59, 999, -1], [0, 0, 0, 1, -1], [42, 21, 54, 0, 1]):
+        for lon in ([0, 0, 0, 0, 1], [180, 0, 0, 0, -1], [179, 59, 59, 999, 1], [71, 6, 18, 0, -1]):
+            out.append([lat, lon, 0, 100, 1000000, 1000])
+    for alt in (-10000000, -1, 0, 1, 4284967295, 4284967294, 2147483647 - 10000000, 2147483648 - 10000000):
+        out.append([[1, 2, 3, 4, 1], [5, 6, 7, 8, -1], alt, 0, 0, 0])
+    for size in (0, 1, 9, 10, 90, 100, 9000000000, 5 * 10 ** 9, 10 ** 9):
+        out.append([[1, 0, 0, 0, 1], [2, 0, 0, 0, 1], 12345, size, size, size])
+    return out
+
+
+def _c_opt():
+    cookie8, cookie40 = b"\x01" * 8, b"\x02" * 40
+    return [[], [[3, b""]], [[3, b"nsid\xff"]], [[10, cookie8]], [[10, cookie8 + cookie40[:8]]], [[10, cookie8 + cookie40[:32]]],
+            [[65001, b""], [65001, b"\x00"], [0, b"\xff" * 300]], [[65535, b"x"], [4, b"abc"], [3, b"z"]], [[12, bytes(468)]], [[11, b"\x00\x10"]]]
+
+
+def _c_svcb():
+    t1, t2 = [b"svc", b"Example", b""], [b""]
+    return [
+        [0, t1, []], [0, t2, []], [1, t2, []], [65535, [b"rel"], []],
+        [1, t1, [[1, [[b"h2"], [b"h3"]]]]], [1, t2, [[1, [[b"\xff" * 255]]], [2, None]]],
+        [2, t1, [[3, 0]]], [2, t1, [[3, 65535]]], [1, t1, [[4, [[b"\x00\x00\x00\x00"]]]]], [1, t1, [[4, [[b"\xc0\x00\x02\x01"], [b"\xff\xff\xff\xff"]]]]],
+        [1, t1, [[6, [[bytes(16)]]]]], [1, t1, [[6, [[b"\x20\x01" + bytes(13) + b"\x01"], [b"\xff" * 16]]]]],
+        [1, t1, [[5, b"\x00"]]], [1, t1, [[5, b"ech\xff" * 20]]], [1, t1, [[8, None]]], [1, t1, [[7, b"/dns-query{?dns}"]]], [1, t1, [[10, [[b"a"], [b"bc"]]]]],
+        [1, t1, [[0, [1, 3]], [1, [[b"h2"]]], [3, 443]]], [1, t1, [[0, [65280]], [65280, b"x"]]],
+        [1, t1, [[9, b"\x00"]]], [1, t1, [[11, b"v"]]], [1, t1, [[65534, b"\xff" * 40]]], [1, t1, [[65280, b"\x01"], [65281, b"\x02"], [65534, b"\x03"]]],
+        [16, t2, [[1, [[b"h2"]]], [2, None], [3, 8443], [4, [[b"\x01\x02\x03\x04"]]], [5, b"e"], [6, [[bytes(15) + b"\x01"]]], [8, None]]],
+    ]
+
+
+HAND_CORNERS = {"hip": _c_hip, "ipseckey": _c_ipseckey, "amtrelay": _c_amtrelay, "apl": _c_apl, "gpos": _c_gpos, "loc": _c_loc, "opt": _c_opt, "svcb": _c_svcb}
